@@ -6,6 +6,7 @@ import Driver.LoopDrv
 import Driver.ParseDrv
 import Driver.TopoDrv
 import Driver.GraphDrv
+import Driver.GenDrv
 open Pushr
 
 def handleLine (line : String) : String :=
@@ -13,6 +14,7 @@ def handleLine (line : String) : String :=
   | some [.list (.atom kind :: rest)] =>
     match kind with
     | "stackop" => StackDrv.handle rest
+    | "gen" => GenDrv.handle rest
     | "graphseq" => GraphDrv.handle rest
     | "topo" => TopoDrv.handle rest
     | "parse" => ParseDrv.handleParse rest
